@@ -39,7 +39,43 @@ CONDITIONS = []
 DETAIL = {}
 
 DATE_CACHE = _misc.date.__wrapped__          # the functools.lru_cache wrapper under @liquid_filter
-MEMOS = (DATE_CACHE, get_lexer, get_parser, get_implicit_environment)
+
+
+def discover_memos():
+    """Every functools.lru_cache wrapper reachable from a module of the package as it is now (module attributes, class
+    attributes, and anything under a chain of __wrapped__): the process-wide memos a render could leave something in."""
+    import importlib
+    import pkgutil
+    import sys
+    import liquid as _pkg
+    for info in pkgutil.walk_packages(_pkg.__path__, "liquid."):
+        try:
+            importlib.import_module(info.name)
+        except Exception:
+            pass
+    seen = {}
+
+    def look(obj):
+        for _ in range(6):
+            if obj is None:
+                return
+            if callable(getattr(obj, "cache_clear", None)) and callable(getattr(obj, "cache_info", None)):
+                seen[id(obj)] = obj
+                return
+            obj = getattr(obj, "__wrapped__", None)
+
+    for name, mod in list(sys.modules.items()):
+        if mod is not None and (name == "liquid" or name.startswith("liquid.")):
+            for obj in list(vars(mod).values()):
+                look(obj)
+                if isinstance(obj, type) and getattr(obj, "__module__", "").startswith("liquid"):
+                    for sub in list(vars(obj).values()):
+                        look(getattr(sub, "__func__", sub))
+    return tuple(seen.values())
+
+
+MEMOS = discover_memos()
+assert all(any(m is x for x in MEMOS) for m in (DATE_CACHE, get_lexer, get_parser, get_implicit_environment))
 
 
 def clear_memos():
@@ -799,7 +835,9 @@ CONDITIONS.append({"fn": "c17_corpus", "quick": 90, "thorough": 200, "sel_only":
 _FH_ENV = _corpus.make_env()
 FH_NAMES = sorted(_FH_ENV.filters)
 FH_VALUES = ["<b>hi</b>", "x <script>alert(1)", "</script>y <i>z</i>", "<style>p{}", "a<![foo[ bar]]>b", "plain", [3, 1, 2], {"k": 1}, "1,2,3", 5, 2.5, None,
-             "%d %s", "2020-01-02", [{"k": 2}, {"k": 1}], "a b  c", "<a><script>", True]
+             "%d %s", "2020-01-02", [{"k": 2}, {"k": 1}], "a b  c", "<a><script>", True,
+             # values that are equal (and hash alike) but print differently: a memo keyed by equality confuses them
+             0.0, -0.0, __import__("decimal").Decimal("1.0"), __import__("decimal").Decimal("1.00"), 1, 1.0]
 _FH_T = {}
 for _f in FH_NAMES:
     for _form in ("{{ v | %s }}", "{{ v | %s: 'k' }}"):
@@ -813,7 +851,12 @@ def _fh_run(key, v):
     return _corpus.outcome(lambda: _FH_T[key].render(v=v))
 
 
-_FH_BASE = {(key, bi): _fh_run(key, FH_VALUES[bi]) for key in _FH_T for bi in range(len(FH_VALUES))}
+def _fh_fresh(key, v):
+    clear_memos()        # every discovered process-wide memo is emptied: one value cannot colour the baseline of the next
+    return _fh_run(key, v)
+
+
+_FH_BASE = {(key, bi): _fh_fresh(key, FH_VALUES[bi]) for key in _FH_T for bi in range(len(FH_VALUES))}
 
 
 def filter_history_sweep(fi, form):
@@ -921,7 +964,7 @@ def selftest():
             if fn.endswith(".py") and fn != "lru_cache.py":
                 txt = open(os.path.join(root, fn), encoding="utf-8").read()
                 found += [os.path.join(root, fn)] * len(re.findall(r"^@(?:functools\.)?lru_cache", txt, re.M))
-    if len(found) != len(MEMOS):
+    if len(found) > len(MEMOS):
         fails.append("functools.lru_cache uses in /repo/liquid: %r, harness clears %d" % (found, len(MEMOS)))
     clear_memos()
     HENV.from_string("{{ 0 | date: '%Y' }}").render()
